@@ -15,6 +15,17 @@ E1_TECH = ('bounded symbolic execution of the real yatiml/PyYAML code with '
            'bounds), counterexamples replayed on the unstubbed public API')
 
 CHECKS = {
+    'C10': dict(
+        text='Bounded model checking of the hook calling protocol: for all '
+             '2^5 subsets of classes (chain A<-B<-C, sibling, unregistered '
+             'mix-in) defining _yatiml_savorize / _yatiml_sweeten / '
+             '_yatiml_recognize in their own body, documents and objects '
+             'denoting each class at 5 positions: the recorded call trace '
+             'equals the base-first own-body hooks of the registered chain, '
+             'each once, before the constructor; recognisers are called only '
+             'with their defining class; SeasoningError becomes '
+             'RecognitionError.',
+        design='4/C10'),
     'C12': dict(
         text='Bounded end-to-end symbolic execution of the generated load, '
              'dump and dump_json functions on solver-chosen values and '
